@@ -181,6 +181,7 @@ type OpResult struct {
 	Aborted   string
 	Insts     []int // resolved instance ids (group: in order)
 	IsNilRes  bool  // (nil, nil) result
+	TypedNil  bool  // a typed-nil pointer was returned as a service
 	Builtin   any   // resolved builtin value
 	Sentinel  *sentinelErr
 	PanicVal  any
@@ -544,7 +545,7 @@ func (h *H) recArg(d Dep, v reflect.Value) ArgRec {
 		}
 		for i := 0; i < v.Len(); i++ {
 			e := v.Index(i)
-			if (e.Kind() == reflect.Pointer || e.Kind() == reflect.Interface) && e.IsNil() {
+			if isNilDeep(e) {
 				rec.Insts = append(rec.Insts, -1)
 				continue
 			}
@@ -556,13 +557,27 @@ func (h *H) recArg(d Dep, v reflect.Value) ArgRec {
 		}
 		return rec
 	}
-	if v.IsNil() {
+	if isNilDeep(v) {
 		return ArgRec{Kind: ArgNil}
 	}
 	if in, ok := v.Interface().(inster); ok {
 		return ArgRec{Kind: ArgInst, Insts: []int{in.inst().ID}}
 	}
 	return ArgRec{Kind: ArgOther}
+}
+
+// isNilDeep: nil pointer, nil interface, or interface holding a nil pointer.
+func isNilDeep(v reflect.Value) bool {
+	switch v.Kind() {
+	case reflect.Pointer, reflect.Slice, reflect.Map, reflect.Func, reflect.Chan:
+		return v.IsNil()
+	case reflect.Interface:
+		if v.IsNil() {
+			return true
+		}
+		return isNilDeep(v.Elem())
+	}
+	return false
 }
 
 func zeroOuts(ft reflect.Type) []reflect.Value {
